@@ -49,6 +49,8 @@ Definition i_saltpack_Version1_1 : N := (0)%N.
 Definition i_saltpack_Version2_0 : N := (2)%N.
 Definition i_saltpack_Version2_1 : N := (0)%N.
 
+(* ---- package github.com/keybase/saltpack/basic ---- *)
+
 (* ---- package github.com/keybase/saltpack/encoding/basex ---- *)
 Definition c_basex_b58skipChars : list byte := [x09; x0a; x0d; x20; x21; x22; x23; x24; x25; x26; x27; x28; x29; x2a; x2b; x2c; x2d; x2e; x2f; x30; x3a; x3b; x3c; x3d; x3e; x3f; x40; x49; x4f; x6c; x5b; x5c; x5d; x5e; x5f; x60; x7b; x7c; x7d; x7e]. (* ??? ????????????-??0???????IOl????_????? *)
 Definition c_basex_base58EncodeStd : list byte := [x31; x32; x33; x34; x35; x36; x37; x38; x39; x41; x42; x43; x44; x45; x46; x47; x48; x4a; x4b; x4c; x4d; x4e; x50; x51; x52; x53; x54; x55; x56; x57; x58; x59; x5a; x61; x62; x63; x64; x65; x66; x67; x68; x69; x6a; x6b; x6d; x6e; x6f; x70; x71; x72; x73; x74; x75; x76; x77; x78; x79; x7a]. (* 123456789ABCDEFGHJKLMNPQRSTUVWXYZabcdefghijkmnopqrstuvwxyz *)
